@@ -123,6 +123,11 @@ class HTTPFile(io.IOBase):
         resp = self.session.get(self.url,
                                 headers={"Range": f"bytes={start}-{stop-1}"}
                                 )
+        if resp.status_code not in (200, 206):
+            # Do not mistake the body of an error reply for file data.
+            raise ValueError(
+                f"Server replied with status code {resp.status_code} "
+                f"{resp.reason} to range request for '{self.url}'")
         return resp.content
 
     def get_cache_chunk(self, index):
